@@ -307,6 +307,7 @@ Definition do_lost (q : nat) (s : state) : state :=
   else s.
 
 Definition do_lookup_done (q : nat) (r : lres) (s : state) : state :=
+  if negb (async_store && made (conns s q)) then s else   (* only an asynchronous store completes lookups *)
   match pending (conns s q) with
   | [] => s
   | (i, dg) :: rest =>
